@@ -126,6 +126,11 @@ func c13r1(c *core.Ctx) {
 					}
 					var bad []string
 					for _, o := range core.Origins(arg) {
+						// the empty string ("the host's default") is acceptable only on the branch
+						// where the filesystem was found to be unrooted (base == "")
+						if k, isC := o.(*ssa.Const); isC && k.Value != nil && k.Value.ExactString() == `""` && unrootedBranchDominates(b) {
+							continue
+						}
 						rc, idx := core.CallOfExtract(o)
 						if rc == nil || idx != 0 || !isResolve(rc.Call.StaticCallee()) {
 							bad = append(bad, "may be "+o.String()+" ("+o.Name()+"), which is not a result of resolvePath")
@@ -736,4 +741,45 @@ func constStr(c *ssa.Const) string {
 // through a cleaned value.
 func dependsRaw(v ssa.Value, raw *ssa.Parameter, isCleaned func(ssa.Value) bool) bool {
 	return core.DependsOnAvoiding(v, func(x ssa.Value) bool { return x == ssa.Value(raw) }, isCleaned)
+}
+
+// unrootedBranchDominates: b is reached only through the branch of a test
+// `x.base == ""` (or the else branch of `x.base != ""`) on a field named base.
+func unrootedBranchDominates(b *ssa.BasicBlock) bool {
+	for d := b.Idom(); d != nil; d = d.Idom() {
+		if len(d.Instrs) == 0 {
+			continue
+		}
+		iff, ok := d.Instrs[len(d.Instrs)-1].(*ssa.If)
+		if !ok {
+			continue
+		}
+		bo, ok := iff.Cond.(*ssa.BinOp)
+		if !ok || (bo.Op != token.EQL && bo.Op != token.NEQ) {
+			continue
+		}
+		k, isC := bo.Y.(*ssa.Const)
+		if !isC || k.Value == nil || k.Value.ExactString() != `""` {
+			continue
+		}
+		ld, ok := bo.X.(*ssa.UnOp)
+		if !ok {
+			continue
+		}
+		fa, ok := ld.X.(*ssa.FieldAddr)
+		if !ok {
+			continue
+		}
+		if f := fieldVar(fa); f == nil || f.Name() != "base" {
+			continue
+		}
+		side := d.Succs[0]
+		if bo.Op == token.NEQ {
+			side = d.Succs[1]
+		}
+		if len(side.Preds) == 1 && (side == b || side.Dominates(b)) {
+			return true
+		}
+	}
+	return false
 }
